@@ -300,7 +300,7 @@ def linkedList (pts : List Pt) (start ptOff : Nat) (ccw : Bool) : List Node :=
   let ns := mkNodes pts ptOff
   dropDuplicateLast (rotr (
     if PolygonKernels.sameWinding ccw (signedArea ns) then setIndex ns start
-    else (setIndex ns (start + 1)).reverse))
+    else (setIndex ns start).reverse))
 
 /-- index (steps from the cursor) of `get_leftmost(start)` -/
 def leftmostIdx (l : List Node) : Nat :=
@@ -573,22 +573,25 @@ inductive CsResult where
   | fuel
 deriving Repr, DecidableEq
 
-/-- the `while True` loop of `CohenSutherlandLineClipping2d.clip_line` with explicit fuel -/
-def csLoop (w : Win) : Nat → Rat → Rat → Rat → Rat → Rat → Rat → CsResult
-  | 0, _, _, _, _, _, _ => .fuel
-  | fuel + 1, x0, y0, x1, y1, x, y =>
-    let code0 := w.encode x0 y0
-    let code1 := w.encode x1 y1
+/-- the `while True` loop of `CohenSutherlandLineClipping2d.clip_line` with explicit fuel.  `done0`/`done1`: outcode bits already
+clipped for each end point.  The code keeps `code0`/`code1` in variables; they always equal `encode(end point) & ~done`
+(initially `done = 0`, and an end point, its `done` set and its code only change together), so they are recomputed here. -/
+def csLoop (w : Win) : Nat → Rat → Rat → Rat → Rat → Rat → Rat → Nat → Nat → CsResult
+  | 0, _, _, _, _, _, _, _, _ => .fuel
+  | fuel + 1, x0, y0, x1, y1, x, y, done0, done1 =>
+    let code0 := PolygonKernels.csMask (w.encode x0 y0) done0
+    let code1 := PolygonKernels.csMask (w.encode x1 y1) done1
     if PolygonKernels.csAccept code0 code1 then .accept ⟨x0, y0⟩ ⟨x1, y1⟩
     else if PolygonKernels.csReject code0 code1 then .reject
     else
       let code := PolygonKernels.csPick code0 code1
       let nx := PolygonKernels.csClipX code x y x0 y0 x1 y1 w.xmin w.xmax w.ymin w.ymax
       let ny := PolygonKernels.csClipY code x y x0 y0 x1 y1 w.xmin w.xmax w.ymin w.ymax
-      if code = code0 then csLoop w fuel nx ny x1 y1 nx ny
-      else csLoop w fuel x0 y0 nx ny nx ny
+      let bit := PolygonKernels.csClipBit code
+      if code = code0 then csLoop w fuel nx ny x1 y1 nx ny (PolygonKernels.csDone done0 bit) done1
+      else csLoop w fuel x0 y0 nx ny nx ny done0 (PolygonKernels.csDone done1 bit)
 
-def csClipLine (w : Win) (fuel : Nat) (p0 p1 : Pt) : CsResult := csLoop w fuel p0.x p0.y p1.x p1.y p0.x p0.y
+def csClipLine (w : Win) (fuel : Nat) (p0 p1 : Pt) : CsResult := csLoop w fuel p0.x p0.y p1.x p1.y p0.x p0.y 0 0
 
 /-! ## convex_hull_2d -/
 
